@@ -1324,6 +1324,10 @@ func (x *Exec) typeSubst2(info *types.Info, f *types.Func, ce *ast.CallExpr, rec
 }
 
 func (x *Exec) inlineLit(st *State, fr *Frame, fl *ast.FuncLit, args []Term, k func(*State, []Term)) {
+	if fr.depth > 12 {
+		x.unsupported(fl, "inlining depth exceeded in a function literal (a closure that calls itself?)")
+		return
+	}
 	sig := x.info.TypeOf(fl).(*types.Signature)
 	for i := 0; i < sig.Params().Len() && i < len(args); i++ {
 		st.vars[sig.Params().At(i)] = args[i]
@@ -1405,6 +1409,18 @@ func (x *Exec) closureValue(st *State, fr *Frame, fl *ast.FuncLit) Term {
 		v := x.getVar(st, o)
 		capT = append(capT, v)
 		capS = append(capS, v.Sort)
+		// a closure captures variables, not values: the snapshot taken here is only right if
+		// the variable is not assigned from this statement on (f = func(){ ... f(...) } would
+		// otherwise read as a call of the old f)
+		if ov, ok := o.(*types.Var); ok {
+			for _, an := range x.assignNodes[ov] {
+				if an.End() > fl.Pos() {
+					x.oblige(st, "model", "closure-captures-reassigned-variable", tFalse, fl,
+						"the closure captures variable "+o.Name()+", which is assigned at or after the closure's creation ("+x.pos(an)+"): capture is by reference, the value snapshot of the model would be wrong")
+					break
+				}
+			}
+		}
 	}
 	fname := sanitize("clo_" + x.unit + "_" + ord)
 	x.d.fun(fname, capS, so)
